@@ -29,7 +29,11 @@ RULE = (
     "case = one real search; for the returned specification, every size n <= N and every parameter "
     "tuple: (global) exhaustive enumeration of the sampler's decision tree with exact probabilities "
     "when it has <= budget leaves; (local) every rule's top-level draw forced through all values with "
-    "recording sub-samplers; (refusal) empty (n, p) must raise InvalidOperationError. non-trivial = a "
+    "recording sub-samplers; (refusal) empty (n, p) must raise InvalidOperationError. case kind forms = "
+    "one generated class: every derived form (plain, equivalence, reverse of equivalence, paths forwards "
+    "and backwards) of every strategy samples with its children bound to the truth (exact counts and "
+    "terms, uniform samplers over the brute-force lists on the same scripted RNG) and the exact output "
+    "distribution must be uniform on the parent's objects for every size <= 4 and parameter tuple. non-trivial = a "
     "recursive specification with >= 4 rules where >= 3 (n, p) distributions over >= 3 objects were "
     "enumerated exactly; distinct = case fingerprints"
 )
@@ -50,15 +54,20 @@ FLOORS = {
                                               "sampling.distributions_enumerated_3plus_objects": 200,
                                               "sampling.leaves_enumerated": 60000,
                                               "sampling.local_draws_forced": 12000,
-                                              "sampling.refusals_checked": 800}},
+                                              "sampling.refusals_checked": 800,
+                                              "sampling.form_distributions_enumerated": 5000},
+              "seen": {"sampling.form": 5}},
     "thorough": {"nontrivial": 300, "counters": {"sampling.distributions_enumerated": 10000,
                                                   "sampling.distributions_enumerated_3plus_objects": 1500,
                                                   "sampling.leaves_enumerated": 1000000,
                                                   "sampling.local_draws_forced": 100000,
-                                                  "sampling.refusals_checked": 6000}},
+                                                  "sampling.refusals_checked": 6000,
+                                                  "sampling.form_distributions_enumerated": 80000},
+                 "seen": {"sampling.form": 5}},
 }
 CASE_TIMEOUT = {"quick": 90, "thorough": 300}
 SIZES = {"quick": 300, "thorough": 2400}
+FORM_CASES = {"quick": 300, "thorough": 5000}
 # wall-clock budget per shard (cases beyond it are counted as truncated, not judged)
 SHARD_BUDGET = {"thorough": 1500}
 
@@ -99,6 +108,19 @@ def gen_cases(tier, seed):
         case.update(id=produced, N=N[tier], budget=BUDGET[tier])
         produced += 1
         yield case
+    yield from gen_form_cases(tier, seed)
+
+
+def gen_form_cases(tier, seed):
+    for j in range(FORM_CASES[tier]):
+        rng = intuniv.rng_for(seed, "C08f", j)
+        cls = gen.rand_class(rng, bytes_p=0, pairs=0.05)
+        cls["flags"] = ""
+        if rng.random() < 0.6:
+            cls["prefix"] = "".join(rng.choice(cls["alphabet"]) for _ in range(rng.randint(1, 2)))
+        if rw.is_empty(cls):
+            continue
+        yield {"id": f"f{j}", "kind": "forms", "cls": cls, "seed": f"{seed}/C08f/{j}", "N": 4, "budget": 3000}
 
 
 def enumerate_distribution(sample, budget):
@@ -233,7 +255,87 @@ def check_local(rule, n, params):
     cx.count("sampling.local_rule_points_checked")
 
 
+def run_forms(case):
+    """Rule level, exact: every derived form of every strategy on a generated class samples
+    with its children bound to the truth (exact counts, exact terms, uniform samplers over the
+    brute-force object lists drawing from the same scripted RNG); the form's own decisions plus
+    the children's are enumerated and the output distribution must be uniform on the parent's
+    objects.  Reaches forms that searches rarely return (paths run backwards through inferral
+    rules, where the constructor pins child statistics to fixed values)."""
+    from vdrive import rulelib
+    from vuniv.words import W
+
+    cx = base.ctx()
+    rng = intuniv.rng_for(case["seed"], "run")
+    c = gen.build_class(case["cls"])
+    todo = []
+    for strat in rulelib.strategies_for(rng):
+        if type(strat).__name__ == "TrackStat":
+            # a union child with a parameter the parent lacks: outside the documented parameter
+            # contract of DisjointUnion (its sampler cannot name a value for it); not judged
+            cx.count("sampling.child_parameter_without_parent_not_judged")
+            continue
+        rule = rulelib.apply(strat, c)
+        if rule is not None:
+            todo.extend(rulelib.forms(rule))
+    todo.extend(rulelib.chains(c, rng))
+    derived = 0
+    for name, form, reason in todo:
+        if form is None:
+            continue
+        pdesc = rw.desc_of(form.comb_class)
+        if rw.is_empty(pdesc):
+            continue
+        kids = [rw.desc_of(ch) for ch in form.children]
+        knames = [rw.stat_names(k) for k in kids]
+        rec = rulelib.Recorder(form)
+
+        def subrec(i):
+            return lambda n, **p: rw.terms(kids[i], n)[tuple(p[k] for k in knames[i])] if n >= 0 else 0
+
+        def subsampler(i):
+            def sample(n, **p):
+                objs = rw.objects_by_params(kids[i], n).get(tuple(p[k] for k in knames[i]), [])
+                return W(objs[vrng.RNG.randint(0, len(objs) - 1)])
+
+            return sample
+
+        form.subterms = tuple(rec.child(i) for i in range(len(kids)))
+        form.subrecs = tuple(subrec(i) for i in range(len(kids)))
+        form.subsamplers = tuple(subsampler(i) for i in range(len(kids)))
+        names = rw.stat_names(pdesc)
+        judged = 0
+        try:
+            for n in range(case["N"] + 1):
+                for p, ws in rw.objects_by_params(pdesc, n).items():
+                    params = dict(zip(names, p))
+                    dist, leaves = enumerate_distribution(
+                        lambda: form.random_sample_object_of_size(n, **params), case["budget"])
+                    cx.count("sampling.leaves_enumerated", leaves)
+                    if dist is None:
+                        continue
+                    cx.count("sampling.form_distributions_enumerated")
+                    judged += 1
+                    want = {w: Fraction(1, len(ws)) for w in ws}
+                    if dist != want:
+                        bad = {k: str(v) for k, v in dist.items() if want.get(k) != v}
+                        cx.violation(f"C08:form-not-uniform:{name.split('[')[0]}:{type(form.constructor).__name__}",
+                                     f"{name} of {form.strategy!r} on {form.comb_class!r}: size {n} params {params}: "
+                                     f"distribution {dict(list(bad.items())[:5])} instead of uniform 1/{len(ws)}; "
+                                     f"never sampled {[w for w in want if w not in dist][:5]}",
+                                     {"n": n, "params": params})
+        except NotImplementedError:
+            cx.count("sampling.forms_without_sampler_not_judged")
+            continue
+        cx.see("sampling.form", name.split("[")[0])
+        if judged and name != "plain":
+            derived += 1
+    return {"nontrivial": derived >= 2, "fingerprint": fp(case["cls"])}
+
+
 def run_case(case):
+    if case.get("kind") == "forms":
+        return run_forms(case)
     from comb_spec_searcher.exception import InvalidOperationError
     from comb_spec_searcher.strategies.rule import Rule
 
